@@ -118,6 +118,22 @@ int main(int argc, char** argv) {
             std::vector<double> pos2(m.pos.size());
             for (size_t i = 0; i < m.nn(); i++) { vec3 p(m.pos[3 * i], m.pos[3 * i + 1], m.pos[3 * i + 2]); p = p.rotate_around_axis(axis, th) + shift; pos2[3 * i] = p.dx(); pos2[3 * i + 1] = p.dy(); pos2[3 * i + 2] = p.dz(); }
             auto c2 = mk(pos2);
+            // the same surface with its triangles stored in the opposite order (face f of the original is face nf-1-f here, with the same
+            // label): which of the two faces of an edge the code meets first must not matter to any force
+            cell_ptr c3;
+            if (!frag && !fragn) {
+                const size_t nf0 = m.tris.size() / 3;
+                std::vector<unsigned> rt(m.tris.size());
+                for (size_t f = 0; f < nf0; f++) for (int k = 0; k < 3; k++) rt[3 * (nf0 - 1 - f) + k] = m.tris[3 * f + k];
+                auto ct = make_type(PR["g0"].d());
+                ct->area_elasticity_modulus_ = PR["ka"].d(); ct->angle_regularization_factor_ = PR["kang"].d(); ct->bulk_modulus_ = PR["K"].d();
+                for (int k = 0; k < 3; k++) ct->face_types_[k].bending_modulus_ = PR["kb"].d() * (1 + k);
+                c3 = std::make_shared<epithelial_cell>(m.pos, rt, 0u, ct);
+                c3->initialize_cell_properties(true);
+                auto& F3 = cell_tester::faces(*c3);
+                for (size_t f = 0; f < F3.size(); f++) F3[f].set_face_type_id((nf0 - 1 - f) % 3);
+                cell_tester::target_volume(*c3) = c3->get_volume() * PR["tv"].d();
+            }
             auto run_term = [&](cell& cc, const std::string& term) {
                 refresh(cc); zero_forces(cc);
                 if (term == "pressure") { cc.update_pressure(); cell_tester::apply_pressure(cc); }
@@ -130,6 +146,8 @@ int main(int argc, char** argv) {
             o.key("terms").obj();
             for (const char* term : {"pressure", "tension", "bending", "angle", "all"}) {
                 run_term(*c, term); run_term(*c2, term);
+                double renum = 0;
+                if (c3) { run_term(*c3, term); auto& N3 = cell_tester::nodes(*c3); auto& N0 = cell_tester::nodes(*c); for (size_t i = 0; i < N0.size() && i < N3.size(); i++) renum = std::max(renum, (N3[i].force() - N0[i].force()).norm()); }
                 vec3 net, tq; double mag = 0, cov = 0, tmag = 0;
                 auto& N = cell_tester::nodes(*c); auto& N2 = cell_tester::nodes(*c2);
                 for (size_t i = 0; i < N.size(); i++) if (N[i].is_used()) {
@@ -141,8 +159,8 @@ int main(int argc, char** argv) {
                 const double fmax = mag / std::max<size_t>(1, N.size());
                 o.key(term).obj();
                 o.key("active").b(mag > 0);
-                o.key("net_ok").b(net.norm() <= 1e-9 * mag + 1e-300).key("torque_ok").b(tq.norm() <= 1e-9 * tmag + 1e-300).key("cov_ok").b(cov <= 1e-7 * fmax + 1e-300);
-                char buf[200]; snprintf(buf, sizeof buf, "net %.2e torque %.2e cov %.2e", net.norm() / (mag + 1e-300), tq.norm() / (tmag + 1e-300), cov / (fmax + 1e-300));
+                o.key("net_ok").b(net.norm() <= 1e-9 * mag + 1e-300).key("torque_ok").b(tq.norm() <= 1e-9 * tmag + 1e-300).key("cov_ok").b(cov <= 1e-7 * fmax + 1e-300).key("renum_ok").b(renum <= 1e-9 * fmax + 1e-300);
+                char buf[200]; snprintf(buf, sizeof buf, "net %.2e torque %.2e cov %.2e renum %.2e", net.norm() / (mag + 1e-300), tq.norm() / (tmag + 1e-300), cov / (fmax + 1e-300), renum / (fmax + 1e-300));
                 o.key("rel").str(buf);
                 o.end_obj();
             }
@@ -181,7 +199,55 @@ int main(int argc, char** argv) {
                 }
                 fd_press = worst_p <= 1e-5; fd_tens = worst_t <= 1e-5;
             }
-            o.key("fd_pressure_ok").b(fd_press).key("fd_tension_ok").b(fd_tens);
+            // bending: the force must be (a constant multiple of) minus the gradient of the hinge energy
+            //   E = sum over edges  k_edge |e|^2 / (A1 + A2) (2 cos(theta / 2))^2 ,  k_edge = mean of the two faces' bending moduli,
+            // recomputed here from the node positions; the constant is fitted (the energy the code reports and the force it applies
+            // differ by the factor 3/2, which the property does not fix), the residual must vanish
+            bool fd_bend = true; double worst_b = 0, cfit = 0;
+            if (PR["kb"].d() > 0) {
+                refresh(*c);
+                zero_forces(*c); cell_tester::apply_bending(*c);
+                auto& N = cell_tester::nodes(*c); auto& F = cell_tester::faces(*c);
+                std::vector<vec3> fb; for (auto& n : N) fb.push_back(n.force());
+                auto ctp = c->get_cell_type();
+                auto energy = [&]() {
+                    double E = 0;
+                    for (const edge& e : c->get_edge_set()) {
+                        auto t1 = cell_tester::tri(F[e.f1()]), t2 = cell_tester::tri(F[e.f2()]);
+                        const vec3 a = (N[t1[1]].pos() - N[t1[0]].pos()).cross(N[t1[2]].pos() - N[t1[0]].pos()), b = (N[t2[1]].pos() - N[t2[0]].pos()).cross(N[t2[2]].pos() - N[t2[0]].pos());
+                        double dt = a.dot(b) / (a.norm() * b.norm()); dt = std::max(-1., std::min(1., dt));
+                        double th = std::acos(dt);
+                        if (th > 135. * M_PI / 180.) continue;
+                        unsigned n4 = 0; for (unsigned x : t2) if (x != e.n1() && x != e.n2()) n4 = x;
+                        if ((N[n4].pos() - N[e.n1()].pos()).dot(a) > 0) th = 2 * M_PI - th;
+                        th = M_PI - th;
+                        const double L = (N[e.n2()].pos() - N[e.n1()].pos()).norm();
+                        const double kk = 0.5 * (ctp->face_types_[F[e.f1()].get_local_face_type_id()].bending_modulus_ + ctp->face_types_[F[e.f2()].get_local_face_type_id()].bending_modulus_);
+                        E += kk * L * L / (0.5 * a.norm() + 0.5 * b.norm()) * std::pow(2. * std::cos(th / 2.), 2);
+                    }
+                    return E;
+                };
+                const double h = 1e-6 * sc;
+                std::vector<double> fdv, fv;
+                for (size_t i = 0; i < N.size(); i += 4) {
+                    if (!N[i].is_used()) continue;
+                    for (int a = 0; a < 3; a++) {
+                        const vec3 e(a == 0, a == 1, a == 2); const vec3 keep = N[i].pos();
+                        cell_tester::pos(N[i]) = keep + e * h; const double e1 = energy();
+                        cell_tester::pos(N[i]) = keep - e * h; const double e0 = energy();
+                        cell_tester::pos(N[i]) = keep;
+                        fdv.push_back(-(e1 - e0) / (2 * h)); fv.push_back(a == 0 ? fb[i].dx() : a == 1 ? fb[i].dy() : fb[i].dz());
+                    }
+                }
+                double num = 0, den = 0, fm = 0;
+                for (size_t q = 0; q < fdv.size(); q++) { num += fdv[q] * fv[q]; den += fdv[q] * fdv[q]; fm = std::max(fm, std::abs(fdv[q])); }
+                cfit = den > 0 ? num / den : 0;
+                for (size_t q = 0; q < fdv.size(); q++) worst_b = std::max(worst_b, std::abs(fv[q] - cfit * fdv[q]) / (std::abs(cfit) * fm + 1e-300));
+                // (hinges that cross the 135 degree cut-off between the two evaluations would break the difference quotient: none on these meshes)
+                fd_bend = den > 0 && cfit > 0 && worst_b <= 1e-4;
+            }
+            o.key("fd_pressure_ok").b(fd_press).key("fd_tension_ok").b(fd_tens).key("fd_bending_ok").b(fd_bend);
+            { char bb[96]; snprintf(bb, sizeof bb, "bending fit %.4f residual %.2e", cfit, worst_b); o.key("fd_bending").str(bb); }
             char buf[120]; snprintf(buf, sizeof buf, "pressure %.2e tension %.2e", worst_p, worst_t);
             o.key("fd_rel").str(buf);
         }
